@@ -401,6 +401,7 @@ def judgeLine (c : Ctx) (root : Tree) (rootId : Nat) (r : Res) (line : String) :
           else if !explained && navPort.isSome then op ++ ":unexplained"
           else if op == "cbf" && answer == "-" && info.raw.data.symbol == symError then "cbf:error-parent-has-no-field-map"
           else if (op == "ns" || op == "nns") && zeroWidth then op ++ ":zero-width-sibling-skipped"
+          else if (op == "ps" || op == "pns") && c.ft.sb k == c.ft.eb k then op ++ ":zero-width-self"
           else if (op == "dbr" || op == "ndbr" || op == "dpr" || op == "ndpr") &&
               (zeroWidth || rangePathHasEmpty) then op ++ ":zero-width"
           else if (op == "fcb" || op == "fncb") &&
